@@ -15,7 +15,7 @@
    known finding C03/1 — publication is not ordered with commits. *)
 From SC Require Import Base.Prelude Resource.Impl Resource.Spec Resource.Pull Resource.ImplProofs Resource.PullProofs
   Resource.Flat Resource.FlatProofs Resource.Judge Excess.Change Excess.MergeExcess
-  Conc.Lts Conc.LtsProofs Conc.SubProofs Conc.FlatInst Conc.Judge Conc.Lossy.
+  Conc.Lts Conc.LtsProofs Conc.SubProofs Conc.FlatInst Conc.Judge Conc.Lossy Conc.LossyPipe Conc.LossyProofs.
 
 Section C03.
   Variable M : Type.
@@ -166,6 +166,134 @@ Example C03_lossy_duplicate_add_fixed :
   map (fun u => cview fr_filter u) (st_csubs s) = [[]] /\
   map (fun u => lossy_view u (id_tok "a")) (st_csubs s) = [None].
 Proof. vm_compute. repeat split; reflexivity. Qed.
+
+(* ---------- subscribers WITHOUT backpressure, arbitrary reader pace (Conc/LossyPipe.v) ---------- *)
+Section C03Lossy.
+  Variable M : Type.
+  Variable rmask : Type.
+  Variable r_filter : rmask -> M -> M.
+  Variable id_tok : string -> Z.
+  Variable id_of : Z -> string.
+  Variable val_tok : M -> Z.
+  Variable val_of : Z -> option M.
+
+  Notation pstep := (pstep r_filter id_tok id_of val_tok val_of).
+  Notation open_sub := (open_sub r_filter None id_of val_of).
+  Notation tokview := (tokview id_tok id_of val_tok).
+  Notation ev_wf := (ev_wf id_tok id_of).
+
+  (* The pipeline of a Collection.Pull without backpressure (changesAfter's output -> C09's merger
+     model -> Pull's goroutine -> consumer), any read mask / include / updates-only setting, opened
+     on any snapshot, driven by ANY interleaving [ops] of bus deliveries and consumer receives (=
+     any reader pace, any stalls).  If the deliveries are a chain of events each describing one
+     transition of the contents from the snapshot to X (which is what the transition system delivers
+     while commits do not overlap), then at EVERY moment, in the merger's token domain,
+         fold (pending in the merger) (fold (taken from the merger) snapshot) = X
+     what was taken from the merger is itself a valid edit script on the snapshot, and what has been
+     taken from Pull's channel ++ what its goroutine is holding ++ the seeds still to come is: all
+     seeds, then the merger's output passed through include and the read mask.  Once nothing is
+     offered (the reader has caught up) nothing is pending either: received = X. *)
+  Theorem C03_lossy_any_pace_received_plus_pending : forall tid ro at_ ops X,
+    let l := fold_left pstep ops (open_sub tid ro None at_) in
+    chain (c_items at_) (delivered ops) X -> Forall ev_wf (delivered ops) ->
+    (forall z, Change.fold_view (pending (ls_m l)) (Change.fold_view (ls_gotm l) (tokview (c_items at_))) z = tokview X z) /\
+    valid_script (ls_gotm l) (tokview (c_items at_)) = true /\
+    ls_gotc l ++ olist (ls_slot l) ++ ls_seeds l =
+      allseeds r_filter ro (c_items at_) ++ fmap (post r_filter None ro) (map (dec id_of val_of) (ls_gotm l)) /\
+    (ls_slot l = None ->
+     (forall z, Change.fold_view (ls_gotm l) (tokview (c_items at_)) z = tokview X z) /\
+     ls_gotc l = allseeds r_filter ro (c_items at_) ++ fmap (post r_filter None ro) (map (dec id_of val_of) (ls_gotm l)) /\
+     queue (ls_m l) = []).
+  Proof.
+    intros tid ro at_ ops X l C W.
+    pose proof (@PI_ops M rmask r_filter id_tok id_of val_tok val_of ops _ _ _ _ (@PI_open M rmask r_filter id_tok id_of val_tok val_of tid ro at_)) as P.
+    simpl in P. fold l in P.
+    destruct (lossy_received_plus_pending P C W) as (A & B & D).
+    split; [exact A|]. split; [exact B|]. split; [exact D|].
+    intros SL. exact (lossy_caught_up P C W SL).
+  Qed.
+End C03Lossy.
+Print Assumptions C03_lossy_any_pace_received_plus_pending.
+
+(* the hypotheses are satisfiable by a non-trivial input: a (the snapshot's item) is removed, added
+   again and removed: three events, each describing its transition, well-formed for the table tokens
+   the judge uses; with them the theorem speaks about every placement of the receives *)
+Example C03_nonvacuous_lossy_chain :
+  let it := ["a"%string] in
+  let L0 := [("a"%string, mkItem (mkF 1 0 0) 300)] in
+  let evs := [mkCE "a" 700 KRemove (Some (mkF 1 0 0)) None; mkCE "a" 1010 KAdd None (Some (mkF 7 0 0));
+              mkCE "a" 701 KRemove (Some (mkF 7 0 0)) None] in
+  chain L0 evs [] /\ Forall (ev_wf (tok_id it) (id_at it)) evs.
+Proof.
+  assert (Hf : forall (x : item fmsg) id', id' <> "a"%string -> lookup id' [("a"%string, x)] = lookup id' []).
+  { intros x id' H. cbn [lookup]. destruct (String.eqb_spec "a" id') as [E|E]; [congruence|reflexivity]. }
+  split.
+  - apply chain_cons with (l1 := []).
+    { constructor; simpl; try reflexivity; try exact I.
+      - intros id' H. symmetry. apply Hf. exact H.
+      - split; [reflexivity|intros C; exfalso; apply C; reflexivity]. }
+    apply chain_cons with (l1 := [("a"%string, mkItem (mkF 7 0 0) 1010)]).
+    { constructor; simpl; try reflexivity.
+      - intros id' H. apply Hf. exact H.
+      - split; [discriminate|intros _; discriminate]. }
+    apply chain_cons with (l1 := []).
+    { constructor; simpl; try reflexivity; try exact I.
+      - intros id' H. symmetry. apply Hf. exact H.
+      - split; [reflexivity|intros C; exfalso; apply C; reflexivity]. }
+    apply chain_nil.
+  - repeat constructor; simpl; discriminate.
+Qed.
+
+(* The reader pace cannot influence the store: the transition-system component of a run with
+   consumer receives anywhere in the schedule is the run of the thread steps alone, so every theorem
+   above about `run` holds under every reader pace. *)
+Theorem C03_lossy_reader_pace_is_invisible_to_writers :
+  forall (M rmask : Type) (r_filter : rmask -> M -> M) equiv id_tok id_of val_tok val_of (writer : Type)
+         m_eqb m_empty (w_validate : writer -> option Z) w_merge clock_at str_ltb idfun v0 prog lossy_of sched st,
+    fst (lrun r_filter equiv id_tok id_of val_tok val_of m_eqb m_empty w_validate w_merge clock_at str_ltb idfun v0 prog lossy_of sched st) =
+    run m_eqb m_empty w_validate w_merge clock_at str_ltb idfun v0 prog (threads_of sched) (fst st).
+Proof. intros. apply lrun_projects. Qed.
+Print Assumptions C03_lossy_reader_pace_is_invisible_to_writers.
+
+(* The model on the delete / re-add sequences (these are what `agrees` compares the code with):
+   ONE writer: Delete a; Add a; Delete a, the subscriber (seed holds a) receiving its two seeds and
+   then being behind: REMOVE+ADD are merged into REPLACE, which it receives, then the REMOVE. *)
+Definition del_add_del : list fcall :=
+  [FDelete "a" plain_wo; FAdd "a" (mkF 7 0 0) plain_wo; FDelete "a" plain_wo; FSubL None (mkFRO None false None)].
+Definition ab_init := [("a"%string, mkF 1 0 0, 300); ("b"%string, mkF 2 2 0, 310)].
+Definition lshow (x : state fmsg (list fld) * list flsub) :=
+  (st_stutter (fst x), all_done (fst x), st_overlap (fst x), final_list (w_c (st_w (fst x))),
+   map (fun l => (map (fun c => (lc_id c, lc_kind c, lc_old c, lc_new c)) (ls_gotc l),
+                  map (fun v => vc_value v) (ls_gotv l), ls_closed l)) (snd x)).
+
+Example C03_lossy_delete_readd_delete_reader_behind :
+  lshow (f_lrun false None del_add_del [3; 3; 0; 0; 1; 1; 1; 3; 2; 2]%nat None ab_init) =
+  (0%nat, true, false, [("b"%string, mkF 2 2 0)],
+   [([("a"%string, 1, None, Some (mkF 1 0 0)); ("b"%string, 1, None, Some (mkF 2 2 0));
+      ("a"%string, 4, Some (mkF 1 0 0), Some (mkF 7 0 0)); ("a"%string, 3, Some (mkF 7 0 0), None)], [], false)]).
+Proof. vm_compute. reflexivity. Qed.
+
+(* the reader stalled from the start: REMOVE+ADD+REMOVE collapse to ONE REMOVE carrying the value
+   the seed showed -- never to nothing (the view would keep a for ever) *)
+Example C03_lossy_delete_readd_delete_reader_stalled :
+  lshow (f_lrun false None del_add_del [3; 0; 0; 1; 1; 1; 2; 2]%nat None ab_init) =
+  (0%nat, true, false, [("b"%string, mkF 2 2 0)],
+   [([("a"%string, 1, None, Some (mkF 1 0 0)); ("b"%string, 1, None, Some (mkF 2 2 0));
+      ("a"%string, 3, Some (mkF 1 0 0), None)], [], false)]).
+Proof. vm_compute. reflexivity. Qed.
+
+(* PullID over the same pipeline: ONE writer Update a; Delete a; Add a with the reader behind after
+   the seed: UPDATE+REMOVE+ADD reach PullID as ONE REPLACE, whose value it must forward (the stream
+   stays open and ends at the item's final value) *)
+Definition upd_del_add : list fcall :=
+  [FUpdate "a" (mkF 5 0 0) plain_wo; FDelete "a" plain_wo; FAdd "a" (mkF 7 0 0) plain_wo;
+   FSubL (Some "a"%string) (mkFRO None false None)].
+Example C03_lossy_pull_id_forwards_replace :
+  lshow (f_lrun false None upd_del_add [3; 3; 0; 0; 0; 1; 1; 2; 2; 2]%nat None ab_init) =
+  (0%nat, true, false, [("a"%string, mkF 7 0 0); ("b"%string, mkF 2 2 0)],
+   [([("a"%string, 1, None, Some (mkF 1 0 0)); ("b"%string, 1, None, Some (mkF 2 2 0));
+      ("a"%string, 4, Some (mkF 1 0 0), Some (mkF 7 0 0))], [mkF 1 0 0; mkF 7 0 0], false)]).
+Proof. vm_compute. reflexivity. Qed.
 
 (* ---------- non-vacuity ---------- *)
 (* one writer, subscription opened between its save and its publication: the seed already shows
